@@ -77,6 +77,12 @@ def gen_pair_history(rnd):
             ops.append(('odd', [(rnd.choice(['x-a', 'x-b', 'k']), rnd.randrange(len(ODD))) for _ in range(rnd.randint(1, 4))], rnd.random() < 0.5))
         elif r < 0.6:
             ops.append(('garbage', bytes(rnd.randrange(256) for _ in range(rnd.randint(1, 12)))))
+        elif r < 0.68:
+            # a Huffman-coded literal that fails AFTER some symbols were decoded (EOS / over-long padding / cut mid-code)
+            good = bytes.fromhex('41496153')           # 'secret' ... a valid Huffman prefix
+            tail = rnd.choice([b'\xff\xff\xff\xff', b'\xff\xff', b'\xfe', b'\x00\xff'])
+            e = good + tail
+            ops.append(('garbage', b'\x00' + bytes([0x80 | len(e)]) + e + b'\x01v'))
         else:
             hs = []
             for _ in range(rnd.randint(0, 6)):
